@@ -65,7 +65,8 @@ def drive(accepted, cmds, out_name="out.ttf", ir_name="p.ir.json"):
 def save_case(rep, r, name, extra_files=()):
     d = os.path.join(rep.replay_dir, "%s-%s-%s" % (rep.pid, rep.seed, name))
     os.makedirs(d, exist_ok=True)
-    for fn in ("p.gdl", "in.ttf", "out.ttf", "p.ir.json", "gdlerr.txt", "stddef.gdh") + tuple(extra_files):
+    more = tuple(fn for fn in os.listdir(r["dir"]) if fn.endswith(".gdh")) if os.path.isdir(r["dir"]) else ()
+    for fn in ("p.gdl", "in.ttf", "out.ttf", "p.ir.json", "gdlerr.txt", "stddef.gdh") + tuple(extra_files) + more:
         p = os.path.join(r["dir"], fn)
         if os.path.exists(p):
             shutil.copy(p, d)
